@@ -482,7 +482,13 @@ def j_pow(cx, A, B):
         ax = abs(x)
         cc = [(c[i], abs(c[i + 1]) * ex + ue * (abs(c[i]) + ax * abs(c[i + 1]))) for i in range(3)]
         if ey:
-            cc[0] = (cc[0][0], cc[0][1] + ey * abs(c[0] * mp.log(ax)))
+            # the exponent is derivative-free but carries an error bound of its own (a rounded intermediate of the global
+            # evaluation): every coefficient depends on it, d/dy of x^y, y x^(y-1), y(y-1) x^(y-2)
+            if x <= 0:
+                raise OutOfDomain("Pow at a non-positive base with an exponent known only up to its error bound")
+            lx = mp.log(x)
+            dyc = [abs(c[0] * lx), abs(mp.power(x, y - 1) * (1 + y * lx)), abs(mp.power(x, y - 2) * ((2 * y - 1) + y * (y - 1) * lx))]
+            cc = [(cc[i][0], cc[i][1] + ey * dyc[i]) for i in range(3)]
         return chain1(cx, cc, A)
     if x <= 0:
         raise OutOfDomain("Pow with a variable exponent needs a positive base")
